@@ -164,6 +164,9 @@ void GlobalGraph::switchNodes(Graph::NodeId nodeA, Graph::NodeId nodeB)
     nodeSonRow = nodeBRow;
   }
 
+  if (father != son && nodeSonRow->second.first.find(father) != nodeSonRow->second.first.end())
+    throw Exception("GlobalGraph::exchangeNodes : reciprocal edges between nodes " + TextTools::toString(nodeA) + " and " + TextTools::toString(nodeB));
+
   // Edge
   GlobalGraph::Edge foundEdge = foundForwardRelation->second;
 
